@@ -220,12 +220,14 @@ fn handle_lag<T: Clone + 'static>(rx: &mut Receiver<BroadcastMessage<T>>) -> Opt
             Ok(m) => {
                 msg = Some(m);
             }
-            // Ideally we'd return a `VecDiff::Reset` with the last state before the
-            // channel was closed here, but we have no way of obtaining the last state.
+            // The channel was closed after the lag. If there were still messages in the
+            // receiver's buffer, the last one holds the final state, use that for reset.
             Err(TryRecvError::Closed) => {
                 #[cfg(feature = "tracing")]
-                info!("Channel closed after lag, can't return last state");
-                return None;
+                if msg.is_none() {
+                    info!("Channel closed after lag, can't return last state");
+                }
+                return msg.map(|msg| msg.state);
             }
             // Lagged twice in a row, is this possible? If it is, it's fine to just
             // loop again and look at the next try_recv result.
